@@ -211,6 +211,63 @@ fn defined_symbols(ir: &str) -> Vec<String>
 	v
 }
 
+/// Calling conventions from the IR text: `name:cc` for every defined or declared function, and the direct calls
+/// whose convention differs from their callee's (undefined behaviour that LLVM's verifier does not report).
+fn calling_conventions(ir: &str) -> (Vec<String>, Vec<String>)
+{
+	let cc_of = |rest: &str| -> &'static str {
+		let head = rest.split('@').next().unwrap_or("");
+		if head.split_whitespace().any(|w| w == "fastcc") { "fast" } else { "c" }
+	};
+	let name_of = |rest: &str| -> Option<String> {
+		let at = rest.find('@')?;
+		Some(rest[at + 1..].chars().take_while(|c| *c != '(').collect::<String>().trim_matches('"').to_string())
+	};
+	let mut ccs: std::collections::BTreeMap<String, &'static str> = std::collections::BTreeMap::new();
+	let mut defined: Vec<String> = Vec::new();
+	for line in ir.lines()
+	{
+		for kw in ["define ", "declare "]
+		{
+			if let Some(rest) = line.strip_prefix(kw)
+			{
+				if let Some(name) = name_of(rest)
+				{
+					if kw == "define "
+					{
+						defined.push(format!("{}:{}", name, cc_of(rest)));
+					}
+					ccs.insert(name, cc_of(rest));
+				}
+			}
+		}
+	}
+	let mut mismatches = Vec::new();
+	for line in ir.lines()
+	{
+		let t = line.trim_start();
+		let callpos = if t.starts_with("call ") || t.starts_with("tail call ") { Some(t) } else { t.find("= call ").map(|i| &t[i + 2..]) };
+		if let Some(rest) = callpos
+		{
+			let rest = rest.trim_start_matches("tail ").trim_start_matches("call ");
+			if let Some(name) = name_of(rest)
+			{
+				if let Some(cc) = ccs.get(&name)
+				{
+					if *cc != cc_of(rest)
+					{
+						mismatches.push(name);
+					}
+				}
+			}
+		}
+	}
+	defined.sort();
+	mismatches.sort();
+	mismatches.dedup();
+	(defined, mismatches)
+}
+
 /// alpha <mode> <filename> <source> [<filename> <source>]...
 /// mode: check | ir | verify | run | wasm ; suffix `+ir` appends the linked IR as hex
 pub fn alpha(fields: &[&str]) -> String
@@ -282,6 +339,19 @@ pub fn alpha(fields: &[&str]) -> String
 		{
 			s.push_str(&format!(" linkeddefs={}", defined_symbols(ir).join(",")));
 		}
+		let mut ccs: Vec<String> = Vec::new();
+		let mut bad: Vec<String> = Vec::new();
+		for ir in o.module_irs.iter().chain(o.linked_ir.iter())
+		{
+			let (d, m) = calling_conventions(ir);
+			ccs.extend(d);
+			bad.extend(m);
+		}
+		ccs.sort();
+		ccs.dedup();
+		bad.sort();
+		bad.dedup();
+		s.push_str(&format!(" ccs={} callcc={}", ccs.join(","), if bad.is_empty() { "ok".to_string() } else { format!("MISMATCH[{}]", bad.join(",")) }));
 	}
 	if mode == "run"
 	{
